@@ -181,8 +181,11 @@ func cmdV3Env(args []string) {
 				rec.Add(tempEventBody(ver, inner, &v, f), "assign eff-domain x temporal")
 			}
 			if !ex || t != tab.expectEnv(vi, &v) {
-				atomic.AddInt64(&mismatches, 1)
-				rec.Add(v3EventBody(ver, &v, "E", f, em.Severity().String(), false), "assign eff-domain x temporal (differs from table composition)")
+				// every disagreement goes to TLC, up to a cap (a grossly wrong library must end in a
+				// VIOLATION with witnesses, not in an exhausted machine)
+				if atomic.AddInt64(&mismatches, 1) <= 20000 {
+					rec.Add(v3EventBody(ver, &v, "E", f, em.Severity().String(), false), "assign eff-domain x temporal (differs from table composition)")
+				}
 			}
 		}
 		atomic.AddInt64(&evalA, 100)
@@ -239,8 +242,8 @@ func cmdV3Env(args []string) {
 			f := em.Score()
 			t, ex, _ := obsScore(f)
 			bad := !ex || t != tab.expectEnv(vi, &v)
-			if bad {
-				atomic.AddInt64(&mismatches, 1)
+			if bad && atomic.AddInt64(&mismatches, 1) > 20000 {
+				continue
 			}
 			if bad || rng.Float64() < rawP {
 				src := "assign concrete product"
